@@ -76,6 +76,21 @@ def conclude(prop, tier, seed, comps, metas, results, infra, t_start, verbose=Fa
     for r in results:
         (secondary if r.get('secondary') else primary)[r['group']] = r
     violations, known_hits = [], []
+    # functions whose contract a group of this property assumes (transitively)
+    assumed = set()
+    frontier = [g for c in comps.values() for g in c.groups if prop in g.properties]
+    seen_g = set()
+    while frontier:
+        g = frontier.pop()
+        if g.name in seen_g:
+            continue
+        seen_g.add(g.name)
+        for r in g.replace:
+            assumed.add(r)
+            for c in comps.values():
+                for g2 in c.groups:
+                    if g2.enforce == r:
+                        frontier.append(g2)
     n_ob = n_ok = 0
     n_bounded = n_bounded_ok = 0
     samples = []
@@ -111,6 +126,19 @@ def conclude(prop, tier, seed, comps, metas, results, infra, t_start, verbose=Fa
             if not any('loop_invariant_step' in (o['name'] or '') or 'loop invariant is preserved' in o['description'].lower() or 'step' in (o['name'] or '') for o in obs):
                 infra.append('%s: loop contract of %s silently dropped (no loop_invariant_step obligation)' % (gname, g.enforce))
         mine = [o for o in obs if 'VACUITY' not in o['tags'] and belongs(o, g.properties, prop)]
+        # contracts this property's proof assumes (the enforced function of this group is replaced by its contract in a
+        # group of this property, directly or through a chain): a failing obligation that is attributed to other
+        # properties only still invalidates the assumption -> undecided (unless it is a recorded known finding)
+        replaced_for_prop = g.enforce and g.enforce in assumed
+        if replaced_for_prop:
+            for o in obs:
+                if 'VACUITY' in o['tags'] or o['status'] == 'SUCCESS' or o in mine:
+                    continue
+                if any(match_known(known, p2, gname, o) for p2 in set(k['property'] for k in known.get('findings', []))):
+                    continue
+                if is_local_frame_failure(o, metas.get(c.name, {})):
+                    continue
+                infra.append('%s: the proof of %s assumes the contract of %s, whose obligation fails: %s' % (gname, prop, g.enforce, ob_key(o)[:160]))
         # a failed frame obligation on a LOCAL VARIABLE of the function under proof ("Check that i is assignable" for a
         # plain identifier declared in that function) says that a loop contract does not list a new or renamed local: the
         # contract is incomplete, nothing caller-visible is involved -> undecided, never a violation
